@@ -22,11 +22,7 @@ import yaml
 import common as C
 
 LEVEL = "proof"
-EXTRA_MODULES = ("Bandit.Proofs.C13Fixed",)
-
-F_NONMAP = "C13-nonmapping-config-traceback"
-F_TOMLDEC = "C13-toml-undecodable-traceback"
-F_INILEVEL = "C13-ini-level-confidence-typeerror"
+EXTRA_MODULES = ()
 
 # ----------------------------------------------------------------------------- programs
 PROG = b'''import os
@@ -698,7 +694,6 @@ def run(res, ctx):
     scans = ModelScans(driver) if driver else None
     runner = Runner(scratch)
     blids = C.blacklist_ids()
-    fixed_model = os.environ.get("C13_MODEL", "fixed") == "fixed"   # /repo carries the fixes d27fc84, 259b80f, da9ae97
     res.rule = ("one abstract configuration (tests/skips/exclude patterns/per-plugin settings) x carriers {YAML, TOML [tool.bandit], INI --ini, INI auto-discovered, CLI flags, "
                 "generator output, legacy profile} alone and split over carriers (config-file part united with flag part), run through bandit.cli.main.main() on programs firing "
                 "29 test IDs; malformed stream: fixed shape tables (empty/scalar/list/str top level, syntax errors, undecodable, missing, directory, unreadable) for YAML and TOML, "
@@ -714,10 +709,7 @@ def run(res, ctx):
             real = runner.real(m)
             mod = None
             if driver is not None and not m["unrep"]:
-                req = dict(m["req"])
-                if fixed_model:
-                    req["fixed"] = True
-                mod = driver.ask(req)
+                mod = driver.ask(dict(m["req"]))
             executed.append((case, m, real, mod))
             return len(executed) - 1
 
@@ -731,9 +723,9 @@ def run(res, ctx):
                 groups.append(dict(g, members=idx))
         else:
             build_all(res, rng, thorough, do, groups, lambda i: executed[i][2]["kind"])
-        evaluate(res, executed, groups, scans, blids, fixed_model)
+        evaluate(res, executed, groups, scans, blids)
         # the kernel-checked NEG witnesses, replayed on the implementation
-        replay_witnesses(res, do, executed, fixed_model)
+        replay_witnesses(res, executed)
     finally:
         if driver:
             driver.close()
@@ -903,15 +895,18 @@ def build_all(res, rng, thorough, do, groups, executed_kind):
     group("equal", [i1, do(c2, stream="precedence")], abstract={"note": "INI targets = command-line target"})
     c = new_case("small", False, "ini-targets+cli-target"); c["ini"] = ini_raw(b"[bandit]\ntargets = {DIR}/nonexistent.py\n")
     group("equal", [do(c, stream="precedence"), do(c2, stream="precedence")], abstract={"note": "command-line target given, INI targets ignored"})
-    # INI numeric options (known finding): level / confidence
+    # INI numeric options: level / confidence
     for opt in ("level", "confidence"):
         for val in ("1", "2", "3", "4"):
             c = new_case("small", False, f"ini-{opt}={val}"); c["ini"] = ini_opts({opt: val})
             i1 = do(c, stream="ini-numeric", ini_numeric=(opt, int(val)))
-            if executed_kind(i1) == "scan":
-                # (only reachable once the known finding is repaired) INI level=N must mean what N-1 `-l` flags mean
-                c2 = new_case("small", False, f"cli-{opt}-count={int(val) - 1}"); c2["cli"]["level" if opt == "level" else "conf"] = int(val) - 1
-                group("equal", [i1, do(c2, stream="ini-numeric")], abstract={"note": f"INI {opt}={val} equals the counted CLI flag"})
+            # INI level=N must mean what N-1 `-l` flags mean
+            c2 = new_case("small", False, f"cli-{opt}-count={int(val) - 1}"); c2["cli"]["level" if opt == "level" else "conf"] = int(val) - 1
+            group("equal", [i1, do(c2, stream="ini-numeric")], abstract={"note": f"INI {opt}={val} equals the counted CLI flag"})
+    # ill-typed / out-of-range INI numbers (arguable "wrong value types": observed, compared with the model only)
+    for val in ("abc", "2.5", "9", "-1", "-4", "0", "+2", "007"):
+        c = new_case("small", False, f"ini-level-odd={val}"); c["ini"] = ini_opts({"level": val})
+        do(c, stream="wrong-types")
     c = new_case("small", False, "ini-level+cli-ll"); c["ini"] = ini_opts({"level": "2"}); c["cli"]["level"] = 2
     c2 = new_case("small", False, "cli-ll"); c2["cli"]["level"] = 2
     group("equal", [do(c, stream="ini-numeric"), do(c2, stream="ini-numeric")], abstract={"note": "CLI -ll given, INI level must be ignored"})
@@ -1069,8 +1064,7 @@ def real_view(real):
             "findings": [list(f[:5]) for f in (real["findings"] or [])][:40], "files": real["files"]}
 
 
-def evaluate(res, executed, groups, scans, blids, fixed_model):
-    known_ok = set()
+def evaluate(res, executed, groups, scans, blids):
     # ---- per case: correspondence + reject table
     for i, (case, m, real, mod) in enumerate(executed):
         stream = case.get("stream", "replay")
@@ -1084,7 +1078,6 @@ def evaluate(res, executed, groups, scans, blids, fixed_model):
         diff = None
         if mod is not None and not case.get("skip_model"):
             diff = compare_model(case, m, real, mod, scans, blids)
-        regions = (mod or {}).get("regions", []) if mod and "error" not in mod else []
         # --- spec: reject table
         spec_ok = True
         why = None
@@ -1102,28 +1095,13 @@ def evaluate(res, executed, groups, scans, blids, fixed_model):
             spec_ok = False
             why = f"unexpected exit status {real['exit']}"
         if not spec_ok:
-            # attribute to a known finding iff the input lies in its region AND the model reproduces the implementation there
-            attributed = False
-            if mod is not None and diff is None:
-                for fid in (F_NONMAP, F_TOMLDEC, F_INILEVEL):
-                    if fid in regions:
-                        res.known_finding(fid)
-                        attributed = True
-                        break
-            if not attributed:
-                res.violation(why, {"oracle": "reject", "cases": [case_replay(case)], "group": {"kind": "none"},
-                                    "argv": [a.replace(m["dir"], "<dir>") for a in m["argv"]], "real": real_view(real),
-                                    "model": mod if mod is None else {k: mod.get(k) for k in ("kind", "why", "exc", "regions")}, "model_diff": diff})
+            res.violation(why, {"oracle": "reject", "cases": [case_replay(case)], "group": {"kind": "none"},
+                                "argv": [a.replace(m["dir"], "<dir>") for a in m["argv"]], "real": real_view(real),
+                                "model": mod if mod is None else {k: mod.get(k) for k in ("kind", "why", "exc")}, "model_diff": diff})
             continue
         if diff is not None:
-            # model != implementation.  Inside a known region with the implementation now satisfying the spec: the defect was repaired.
-            in_region = [fid for fid in (F_NONMAP, F_TOMLDEC, F_INILEVEL) if fid in regions]
-            if in_region and not fixed_model:
-                res.notes.append(f"NOTE: known finding {in_region[0]} no longer reproduces on {case['tag']!r} (implementation satisfies the property there; model and known_findings.json are due for an update)")
-                res.count("known-finding-repaired")
-            else:
-                res.break_("correspondence", {"case": case_replay(case), "argv": [a.replace(m["dir"], "<dir>") for a in m["argv"]], "real": real_view(real), "diff": diff})
-                res.count("correspondence-mismatch")
+            res.break_("correspondence", {"case": case_replay(case), "argv": [a.replace(m["dir"], "<dir>") for a in m["argv"]], "real": real_view(real), "diff": diff})
+            res.count("correspondence-mismatch")
         if case.get("stream") in ("wrong-types", "ini-robustness") and real["kind"] == "crash":
             res.count("observation:arguable-traceback:" + str(real["exc"]))
     # ---- groups
@@ -1180,9 +1158,9 @@ def evaluate(res, executed, groups, scans, blids, fixed_model):
                         res.violation("generator wrote a setting that differs from the plugin's default", {"oracle": "generator", "key": k, "written": v, "default": dflt[k], "cases": [case_replay(case)], "group": {"kind": "none"}})
 
 
-def replay_witnesses(res, do, executed, fixed_model):
-    """The NEG_ theorems of Props/C13.lean name concrete inputs; they are present in the malformed stream
-    (empty file, `5`, `profiles` string, undecodable TOML, INI level).  Record that each was exercised."""
+def replay_witnesses(res, executed):
+    """Props.C13.former_witnesses_rejected / ini_level_as_cli name the inputs that ended in a traceback before the
+    /repo fixes d27fc84, 259b80f, da9ae97; they are regression cases of the malformed stream.  Record that each ran."""
     tags = {e[0]["tag"] for e in executed}
     need = ["bad-yaml:empty", "bad-yaml:int", "bad-yaml:str-profiles", "bad-toml:undecodable", "bad-toml:tool-int", "ini-level=2"]
     if not any(t.startswith("bad-yaml") for t in tags):
@@ -1190,4 +1168,4 @@ def replay_witnesses(res, do, executed, fixed_model):
     missing = [t for t in need if t not in tags]
     if missing:
         res.break_("witness-not-replayed", missing)
-    res.extra["neg_witnesses_replayed"] = [t for t in need if t in tags]
+    res.extra["regression_witnesses_replayed"] = [t for t in need if t in tags]
